@@ -425,7 +425,11 @@ def dispatch18 : Dispatch := fun _W op args =>
       pure (if x.den ≤ lim ∧ v = x then ok ("exact " ++ showQ v) else mismatch (ok ("exact " ++ showQ v)) "c18-spec")
     | .ok (some (.inexact v neg)) =>
       let up := specNextUp x.val lim; let dn := specNextDown x.val lim
-      let s := ok ("inexact " ++ showQ v ++ (if neg then " -" else " +"))
+      let tie := decide (up - x.val = x.val - dn)
+      let s := if tie then
+          -- an exact tie may go either way: both neighbours are printed instead of the choice
+          ok ("inexact-tie " ++ ratStr dn ++ " " ++ ratStr up)
+        else ok ("inexact " ++ showQ v ++ (if neg then " -" else " +"))
       -- the closer of the two neighbours (either one on a tie), error sign = sign(result − x)
       let good := lim < x.den && decide (Reduced v) &&
         ((v.val == up && !neg && decide (up - x.val ≤ x.val - dn)) ||
@@ -454,6 +458,10 @@ def dispatch18 : Dispatch := fun _W op args =>
       pure (if decide (Reduced r) && back && brute then ok (showQ r) else mismatch (ok (showQ r)) "c18-spec")
     | .ok none => pure (mismatch (ok "fuel") "model-fuel-exhausted")
     | .error k => pure (mismatch (panic k.name) "c18-unexpected-panic")
+  | "s.fromfloat", [m, b, "inf", _, _] | "s.fromfloat", [m, b, "-inf", _, _] => do
+    -- an infinite FBig is not a rational number: `None`
+    let _ ← parseMode m; let b ← parseDecNat b
+    if b < 2 then none else pure (ok "none")
   | "s.fromfloat", [m, b, sg, e, pr] => do
     let mode ← parseMode m
     let b ← parseDecNat b; let sg ← parseInt sg; let e ← parseDec e; let pr ← parseDecNat pr
